@@ -314,8 +314,9 @@ class AioConn:
             self.handler_exc = e
             self.log.add("handler_exc", conn=self.cid, exc=type(e).__name__, msg=str(e)[:200])
         finally:
-            self.handler_done_at = self.env.now()
-            self.handler_done_seq = self.log.add("handler_done", conn=self.cid)["seq"]
+            if not self.env.tearing_down:
+                self.handler_done_at = self.env.now()
+                self.handler_done_seq = self.log.add("handler_done", conn=self.cid)["seq"]
 
     # -- called by the transport -----------------------------------------
     def _deliver(self, data: bytes) -> None:
@@ -324,11 +325,15 @@ class AioConn:
         self.rx_marks.append((ev["seq"], ev["t"], len(self.rx)))
 
     def _server_eof(self) -> None:
+        if self.env.tearing_down:
+            return
         if self.server_eof_at is None:
             ev = self.log.add("server_eof", conn=self.cid)
             self.server_eof_at, self.server_eof_seq = ev["t"], ev["seq"]
 
     def _server_closed(self, exc: Optional[BaseException]) -> None:
+        if self.env.tearing_down:
+            return
         self._server_eof()
         if self.closed_at is None:
             ev = self.log.add("server_closed", conn=self.cid,
@@ -389,6 +394,7 @@ class AioEnv:
         self.state = state if state is not None else {}
         self.conns: List[AioConn] = []
         self.loop_errors: List[str] = []
+        self.tearing_down = False
         loop.set_exception_handler(self._on_loop_error)
 
     def _on_loop_error(self, loop: Any, context: dict) -> None:
@@ -444,12 +450,16 @@ def run_aio(scenario: Callable[[AioEnv], Awaitable[Any]], cfg: Dict[str, Any],
             result["env"] = env
             result["value"] = await scenario(env)
             result["alive"] = env.alive_tasks()
+            env.tearing_down = True
+            env.log.add("teardown")
 
         try:
             loop.run_until_complete(main())
         except SpinError as e:
             result["spin"] = str(e)
         finally:
+            if "env" in result:
+                result["env"].tearing_down = True
             _teardown(loop)
     finally:
         loop.close()
